@@ -15,7 +15,7 @@ META = {
             "stated rule (decided by C01/C02 for the parser, guarded by a dominating check, tracing metadata), matches a reviewed entry, or is "
             "reported; Q2 the side tables of InferenceResult are read with get(), never indexed; Q3 every cycle of the salsa query graph "
             "consists of queries that have cycle recovery; Q5 recursion that follows user-written references (type aliases) carries a "
-            "visited-set guard. One obligation per site / query / recursive function. Verifier-style. Q7/Q8 = C11 H6/H7 (equality of query values). Q12 = C02 P2 (no parser loop stands still: the progress guard is reachable through deep nesting only). Q11 = C09 Y6 (complete inference groups: part of the cut of the infer cycle). Q10 every cycle of the query graph has a cut that keeps it from happening (recovery does not survive memo validation). Q9 no path through a recursive function descends twice into the same child of its input (linear, not 2^depth, work: the 11 queries answer on deeply nested annotations).",
+            "visited-set guard. One obligation per site / query / recursive function. Verifier-style. Q7/Q8 = C11 H6/H7 (equality of query values). Q12 = C02 P2 (no parser loop stands still: the progress guard is reachable through deep nesting only). Q11 = C09 Y6 (complete inference groups: part of the cut of the infer cycle). Q10 every cycle of the query graph has a cut that keeps it from happening (recovery does not survive memo validation). Q9 no path through a recursive function descends twice into the same child of its input (linear, not 2^depth, work: the 11 queries answer on deeply nested annotations). Q14 an expression is inferred once: the per-expression worker of the inferencer runs only behind a failed look-up in the table of assigned types, the entry is made before the descent, and nothing else fills that table (40 levels of `1 |> g(1 |> g(..))` never answered). Q15 a type variable is not unified with a variable of its own class (`let b = #(a, a)` x 40 never answered).",
     "explanation": "Engine G lists every unwrap/expect/index/asserting-API call, MIR arithmetic or bounds assert and explicit panic that "
                    "the 11 queries can reach and demands a justification for each; the salsa query graph is rebuilt from the generated "
                    "QueryFunction::execute bodies and checked for cycles without recovery (a cycle panics in every query touching it). "
@@ -198,8 +198,156 @@ def run(F, res, tier):
     _c11.value_equality_rules(F, res, rule="Q7", rule2="Q8")
     no_double_descent(F, res)
     every_file_has_a_tree_of_its_own(F, res)
+    inference_is_memoised(F, res)
+    same_class_is_a_no_op(F, res)
     from rules import c09 as _c09
     _c09.groups_scan_every_body(F, res, rule="Q11")
+
+
+def _map_field(d, op):
+    o = d.origin_op(op)
+    if o.get("k") == "field":
+        names = [e.get("n") for e in o.get("proj", []) if isinstance(e, dict) and "f" in e]
+        return names[-1] if names else None
+    return None
+
+
+def inference_is_memoised(F, res, rule="Q14"):
+    """Q14: an expression is inferred once. Arms of the inferencer look at children before they infer a parent that contains them
+    (the pipe arm infers the callee and the arguments of the call on its right, then the call), so the number of visits of a node
+    doubles with every level of `1 |> g(1 |> g(..))` unless the descent is memoised: 40 levels never answer. Three clauses:
+    every call of the per-node worker (infer_expr_inner) sits behind a failed look-up of the expression in the table of the types
+    already assigned; the entry is made before the descent (between the look-up and the worker); and nothing else fills that table
+    for an expression that has not been inferred - else the look-up answers a placeholder nobody ever unifies with anything
+    (the second clause is what makes the first one safe)."""
+    INF = "ide::ty::infer::InferCtx::"
+    worker = INF + "infer_expr_inner"
+    if worker not in F.fns:
+        res.anchor_missing(rule, worker)
+        return
+    sites, bad = 0, []
+    memo_field, allocs = None, set()
+    for p, f in sorted(F.fns.items()):
+        if not p.startswith(("ide::", "<ide::")) or not f.blocks:
+            continue
+        calls = [(b, t) for b, t in f.calls() if (callee(t) or "") == worker]
+        if not calls:
+            continue
+        d = FL.Defs(f)
+        for b, t in calls:
+            sites += 1
+            key = FL.origin_key(d.origin_op(t["args"][1]))
+            ok = False
+            for g in FL.gates(F, f, [b], d):
+                ct = g.get("call_t")
+                if not ct or FL.short(g.get("callee") or "") != "ArenaMap::get" or g.get("allowed") != ["None"]:
+                    continue
+                if FL.origin_key(d.origin_op(ct["args"][1])) != key:
+                    continue
+                fld = _map_field(d, ct["args"][0])
+                if fld is None:
+                    continue
+                # the entry is made on every path from the failed look-up to the descent
+                fills = []
+                for b2, t2 in f.calls():
+                    c2 = callee(t2) or ""
+                    h = F.fns.get(c2)
+                    direct = FL.short(c2) == "ArenaMap::insert" and _map_field(d, t2["args"][0]) == fld
+                    via = False
+                    if h is not None and h.blocks and c2.startswith(INF):
+                        dh = FL.Defs(h)
+                        via = any(FL.short(callee(t3) or "") == "ArenaMap::insert" and _map_field(dh, t3["args"][0]) == fld and
+                                  dh.origin_op(t3["args"][1]).get("k") == "arg" for _b3, t3 in h.calls())
+                        if via:
+                            allocs.add(c2)
+                    if (direct or via) and len(t2["args"]) > 1 and FL.origin_key(d.origin_op(t2["args"][1])) == key:
+                        fills.append(b2)
+                if fills and not f.can_reach(g["bb"], [b], avoid=fills):
+                    ok, memo_field = True, fld
+            if not ok:
+                bad.append("%s (line %s)" % (FL.short(p), t["ln"]))
+    res.ob(rule, "infer/once", "the per-expression worker of the inferencer runs only behind a failed look-up of that expression in the table of types already "
+           "assigned, and the entry is made before the descent (an expression is inferred once however many arms look at it)",
+           sites > 0 and not bad, where="crates/ide/src/ty/infer.rs", how="%d call site(s) of infer_expr_inner, memo table %s" % (sites, memo_field) if not bad else
+           "not memoised: %s" % bad)
+    if memo_field is None:
+        return
+    # who else fills the memo table
+    stray = []
+    nins = 0
+    for p, f in sorted(F.fns.items()):
+        if not p.startswith(("ide::", "<ide::")) or not f.blocks:
+            continue
+        d = None
+        for b, t in f.calls():
+            c = callee(t) or ""
+            if c in allocs and p != worker:
+                # the allocator of placeholders: only where a worker call follows under the same key (checked above) - i.e. in the
+                # functions that call the worker
+                if not any((callee(t2) or "") == worker for _b2, t2 in f.calls()):
+                    stray.append("%s hands out a placeholder in %s, which does not infer the expression" % (FL.short(c), FL.short(p)))
+                continue
+            if FL.short(c) != "ArenaMap::insert":
+                continue
+            d = d or FL.Defs(f)
+            if _map_field(d, t["args"][0]) != memo_field:
+                continue
+            nins += 1
+            if p in allocs:
+                continue
+            ko = d.origin_op(t["args"][1])
+            if p == worker and ko.get("k") == "arg" and ko.get("n") == 2:
+                continue                    # the worker records the type of the expression it is inferring
+            stray.append("%s inserts into %s under a key that is not the expression being inferred (line %s)" % (FL.short(p), memo_field, t["ln"]))
+    res.ob(rule, "infer/memo-filled-by-inference-only", "the table the look-up reads is filled only for the expression under inference: by the placeholder "
+           "made between the look-up and the descent, or by the worker for its own expression (an entry made elsewhere would end the inference of that "
+           "expression before it began)", not stray, where="crates/ide/src/ty/infer.rs",
+           how="%d insert site(s) into %s, allocator(s) %s" % (nins, memo_field, sorted(FL.short(a) for a in allocs)) if not stray else "; ".join(stray))
+
+
+def same_class_is_a_no_op(F, res, rule="Q15"):
+    """Q15: unifying a type variable with a variable of its own class does nothing. `let b = #(a, a)` ends in unify_var(v, v);
+    unify walks the type the two share as a tree and calls itself on every pair of children, each of which is again one variable with
+    itself: a chain of n such lets costs 2^n steps (40 never answer). In every function that takes the content of one variable's
+    class (UnionFind::get / get_mut) to unify it with another variable, that step sits behind a comparison of the two
+    representatives (UnionFind::find) that came out unequal."""
+    INF = "ide::ty::infer::InferCtx::"
+    nsites, bad = 0, []
+    for p, f in sorted(F.fns.items()):
+        if not p.startswith(INF) or not f.blocks or "{closure" in p:
+            continue
+        params = [i for i in range(2, f.d["arg_count"] + 1) if (f.local_ty(i) or "").endswith("TyVar")]
+        if len(params) < 2:
+            continue
+        d = FL.Defs(f)
+        for b, t in f.calls():
+            if FL.short(callee(t) or "") not in ("UnionFind::get_mut", "UnionFind::get"):
+                continue
+            nsites += 1
+            ok = False
+            for g in FL.gates(F, f, [b], d):
+                o = g.get("origin") or {}
+                if o.get("k") != "rv" or o["rv"].get("k") != "bin" or o["rv"]["op"] not in ("Eq", "Ne"):
+                    continue
+                sides = [d.origin_op(x) for x in (o["rv"]["a"], o["rv"]["b"]) if isinstance(x, dict) and "k" not in x]
+                finds = [x for x in sides if x.get("k") == "call" and FL.short(callee(x["t"]) or "") == "UnionFind::find"]
+                if len(finds) != 2:
+                    continue
+                roots = set()
+                for x in finds:
+                    ao = d.origin_op(x["t"]["args"][1])
+                    while ao.get("k") == "field":
+                        ao = ao["base"]
+                    if ao.get("k") == "arg":
+                        roots.add(ao["n"])
+                unequal = (o["rv"]["op"] == "Eq" and g.get("allowed") == [False]) or (o["rv"]["op"] == "Ne" and g.get("allowed") == [True])
+                if len(roots) == 2 and unequal:
+                    ok = True
+            if not ok:
+                bad.append("%s (line %s)" % (FL.short(p), t["ln"]))
+    res.ob(rule, "unify/same-class", "the content of one variable's class is unified with another variable only after their representatives were compared and "
+           "found different", nsites > 0 and not bad, where="crates/ide/src/ty/infer.rs",
+           how="%d site(s), each behind find(a) != find(b)" % nsites if nsites and not bad else ("no site found" if not nsites else "not guarded: %s" % bad))
 
 
 TREE = {
